@@ -16,8 +16,12 @@ for d in sorted(glob.glob(os.path.join(ROOT, 'seeded', '*'))):
     own = [x for x in last_caught if x['check'] == os.path.basename(d).split('-')[0]]
     now = (own or last_caught)[-1] if last_caught else None
     files = ', '.join(os.path.basename(f) for f in m.get('files', []))
+    if m.get('superseded'):
+        now_txt = 'superseded by a repair of the line it edits (kept as history)'
+    else:
+        now_txt = ('%s %s: %s' % (now['check'], now['tier'], ', '.join('`%s`' % x for x in now['monitors'][:3]))) if now else '**not caught**'
     print('| %s | %s | %s | %s | %s | %s |' % (
         os.path.basename(d), files, short(m.get('summary', ''), 170).replace('|', '/'),
         short(m.get('needs_to_manifest', ''), 170).replace('|', '/'),
-        ('caught' if first and first['caught'] else 'MISSED') if first else '-',
-        ('%s %s: %s' % (now['check'], now['tier'], ', '.join('`%s`' % x for x in now['monitors'][:3]))) if now else '**not caught**'))
+        ('caught' if first and first['caught'] else ('INCONCLUSIVE' if first and first.get('rc') == 2 else 'MISSED')) if first else '-',
+        now_txt))
